@@ -1,4 +1,5 @@
 import HcipyVerif.Lemmas.Coronagraph
+import HcipyVerif.Lemmas.CoronagraphMat
 import Mathlib.Algebra.Order.Field.Rat
 import Mathlib.Algebra.Order.Floor.Ring
 import Mathlib.Data.Rat.Floor
@@ -161,6 +162,131 @@ end Perfect
 order 4 nulls `1 + 2x` and leaves `x²`'s residual. -/
 example : (perfectCoronagraph (K := Rat) #v[1, 1, 1] #v[-1, 0, 1] #v[0, 0, 0] 4 #v[-1, 1, 3]).toList
     = [0, 0, 0] := by decide +kernel
+
+/-! ## perfect coronagraph: the operator the code literally evaluates (round 4)
+
+`perfectMat T T⁺ c E = E − T (c ∘ (T⁺ E))` is `PerfectCoronagraph.forward` for *arbitrary*
+matrices.  The driver runs this very definition on the real object's `transformation`,
+`transformation_inverse`, `coeffs` (exact rationals; complex matrices in their real `2n × 2k`
+form) and reports the defects of the three hypotheses below for them (op `pmat`), so the clauses
+are tied to the code through the predicates `LeftInv` (`T⁺ T = I`), `WAdjoint` (`T⁺ = μ Tᵀ W`,
+i.e. `T⁺ = Tᴴ` on a regular grid) and `NullsModes` (`span(modes) ⊆ range T`, stated as "every
+mode is mapped to zero") — whatever QR did with linearly dependent modes. -/
+section Literal
+variable {K : Type} {n k : ℕ}
+
+/-- The operator is linear (any commutative ring, any matrices, any `coeffs`). -/
+theorem perfectMat_linear [CommRing K] (T : Vector (Vector K k) n) (Tinv : Vector (Vector K n) k)
+    (c : Vector K k) (x y : Vector K n) (a : K) :
+    toFn (perfectMat T Tinv c (Vector.ofFn fun i => x[i] + a * y[i])) =
+      toFn (perfectMat T Tinv c x) + a • toFn (perfectMat T Tinv c y) := by
+  rw [toFn_perfectMat, toFn_perfectMat, toFn_perfectMat, toFn_ofFn, ← perfectMatF_smul, ← perfectMatF_add]
+  rfl
+
+/-- **Aperture × any polynomial of total degree below `order/2` is nulled** by the code's operator
+as soon as it nulls the `order/2·(order/2+1)/2` modes themselves (`NullsModes`: decidable, reported
+by the driver for the real matrices). -/
+theorem perfectMat_nulls_polynomial [CommRing K] (T : Vector (Vector K k) n) (Tinv : Vector (Vector K n) k)
+    (cf : Vector K k) (a x y : Vector K n) (order : ℕ) (hm : NullsModes T Tinv cf a x y order)
+    (c : ℕ → ℕ → K) (E : Vector K n)
+    (hE : ∀ i : Fin n, E[i] = a[i] * ∑ d ∈ Finset.range (order / 2), ∑ j ∈ Finset.range (d + 1),
+      c j (d - j) * x[i] ^ j * y[i] ^ (d - j)) :
+    perfectMat T Tinv cf E = zeroVec K n := by
+  apply toFn_injective
+  have hsum : toFn E = ∑ d ∈ Finset.range (order / 2), ∑ j ∈ Finset.range (d + 1),
+      c j (d - j) • toFn (mode a x y (j, d - j)) := by
+    funext i
+    simp only [Finset.sum_apply, Pi.smul_apply, smul_eq_mul, toFn_mode']
+    have := hE i
+    simp only [toFn] at *
+    rw [this, Finset.mul_sum]
+    refine Finset.sum_congr rfl fun d _ => ?_
+    rw [Finset.mul_sum]
+    refine Finset.sum_congr rfl fun j _ => ?_
+    ring
+  rw [toFn_perfectMat, hsum, toFn_zeroVec]
+  have hadd : ∀ (s : Finset ℕ) (f : ℕ → Fin n → K),
+      perfectMatF (toFn2 T) (toFn2 Tinv) (toFn cf) (∑ d ∈ s, f d) =
+        ∑ d ∈ s, perfectMatF (toFn2 T) (toFn2 Tinv) (toFn cf) (f d) := by
+    intro s f
+    induction s using Finset.induction_on with
+    | empty => simp [perfectMatF_zero]
+    | insert d s hd ih => rw [Finset.sum_insert hd, Finset.sum_insert hd, perfectMatF_add, ih]
+  rw [hadd]
+  refine Finset.sum_eq_zero fun d hd => ?_
+  rw [hadd]
+  refine Finset.sum_eq_zero fun j hj => ?_
+  rw [perfectMatF_smul]
+  have hd' := Finset.mem_range.1 hd
+  have hj' := Finset.mem_range.1 hj
+  have := hm (j, d - j) (mem_modeExps (by omega))
+  rw [← toFn_perfectMat, this, toFn_zeroVec, smul_zero]
+
+/-- **The flat wavefront over the aperture is nulled** (any order ≥ 2) under `NullsModes`. -/
+theorem perfectMat_nulls_flat [CommRing K] (T : Vector (Vector K k) n) (Tinv : Vector (Vector K n) k)
+    (cf : Vector K k) (a x y : Vector K n) (order : ℕ) (ho : 2 ≤ order)
+    (hm : NullsModes T Tinv cf a x y order) : perfectMat T Tinv cf a = zeroVec K n := by
+  apply perfectMat_nulls_polynomial T Tinv cf a x y order hm (fun j k => if j = 0 ∧ k = 0 then 1 else 0)
+  intro i
+  have h0 : 0 < order / 2 := by omega
+  rw [Finset.sum_eq_single_of_mem 0 (Finset.mem_range.2 h0)]
+  · simp
+  · intro d _ hd
+    apply Finset.sum_eq_zero
+    intro j _
+    have : ¬ (j = 0 ∧ d - j = 0) := by omega
+    simp [this]
+
+/-- Everything in the range of `T` is nulled when `T⁺ T = I` and `coeffs = 1`. -/
+theorem perfectMat_nulls_range [CommRing K] (T : Vector (Vector K k) n) (Tinv : Vector (Vector K n) k)
+    (h : LeftInv T Tinv) (b : Vector K k) :
+    perfectMat T Tinv (onesVec K k) (matVec T b) = zeroVec K n := by
+  apply toFn_injective
+  rw [toFn_perfectMat, toFn_onesVec, toFn_zeroVec, toFn_matVec]
+  exact perfectMatF_range _ _ ((leftInv_iff T Tinv).1 h) (toFn b)
+
+/-- **Idempotent** when `T⁺ T = I` and `coeffs = 1` (any commutative ring: no orthogonality is
+needed, so this covers complex apertures directly). -/
+theorem perfectMat_idempotent [CommRing K] (T : Vector (Vector K k) n) (Tinv : Vector (Vector K n) k)
+    (h : LeftInv T Tinv) (E : Vector K n) :
+    perfectMat T Tinv (onesVec K k) (perfectMat T Tinv (onesVec K k) E) =
+      perfectMat T Tinv (onesVec K k) E := by
+  apply toFn_injective
+  rw [toFn_perfectMat, toFn_perfectMat, toFn_onesVec]
+  exact perfectMatF_idem _ _ ((leftInv_iff T Tinv).1 h) _
+
+/-- **Weighted power never increases** — `total_power = Σ w_i |E_i|²` with the grid weights `w ≥ 0` —
+when `T⁺ T = I` and `T⁺` is (a positive multiple `μ` of) the adjoint of `T` *in the inner product
+weighted by `w`*.  For the code (`T⁺ = Tᴴ`, unweighted QR) `WAdjoint` holds exactly when the
+weights are constant on the support of `T`: this is the restriction to regular grids, and
+`perfectMat_weighted_power_counterexample` shows it cannot be dropped. -/
+theorem perfectMat_power_le [Field K] [LinearOrder K] [IsStrictOrderedRing K]
+    (T : Vector (Vector K k) n) (Tinv : Vector (Vector K n) k) (w : Vector K n) (mu : K)
+    (h : LeftInv T Tinv) (hadj : WAdjoint T Tinv w mu) (hmu : 0 < mu) (hw : ∀ i : Fin n, 0 ≤ w[i])
+    (E : Vector K n) :
+    powerW w (perfectMat T Tinv (onesVec K k) E) ≤ powerW w E := by
+  rw [powerW_eq, powerW_eq, toFn_perfectMat, toFn_onesVec]
+  exact perfectMatF_pw_le _ _ (toFn w) mu ((leftInv_iff T Tinv).1 h) ((wAdjoint_iff T Tinv w mu).1 hadj) hmu hw _
+
+/-- The hypotheses are satisfiable: two points, the normalised constant mode, unit weights. -/
+example : let T : Vector (Vector ℚ 1) 2 := #v[#v[1], #v[1]]
+    let Tinv : Vector (Vector ℚ 2) 1 := #v[#v[1/2, 1/2]]
+    LeftInv T Tinv ∧ WAdjoint T Tinv #v[1, 1] (1/2) ∧
+      NullsModes T Tinv (onesVec ℚ 1) #v[1, 1] #v[0, 1] #v[0, 0] 2 := by decide +kernel
+
+/-- **The restriction to constant weights is necessary**: on the two-point grid with weights
+`(1, 8)` the projector onto the complement of the flat mode — orthogonal in the *unweighted*
+product, as the code's QR makes it — maps `E = (1, 0)` (power 1) to `(1/2, −1/2)` (power 9/4).
+The same numbers come out of the real `PerfectCoronagraph` (harness part B, weighted grids). -/
+theorem perfectMat_weighted_power_counterexample :
+    let T : Vector (Vector ℚ 1) 2 := #v[#v[1], #v[1]]
+    let Tinv : Vector (Vector ℚ 2) 1 := #v[#v[1/2, 1/2]]
+    let w : Vector ℚ 2 := #v[1, 8]
+    LeftInv T Tinv ∧ WAdjoint T Tinv #v[1, 1] (1/2) ∧
+      powerW w #v[1, 0] = 1 ∧ powerW w (perfectMat T Tinv (onesVec ℚ 1) #v[1, 0]) = 9 / 4 ∧
+      powerW w (perfect [#v[1, 1]] #v[1, 0]) = 9 / 4 := by decide +kernel
+
+end Literal
 
 /-! ## Lyot coronagraphs -/
 section Lyot
